@@ -531,6 +531,18 @@ def systematic():
                   "ops": [["solve"], ["scaler", "0"], ["chg_obj", "0", "1:1"], ["solve"], ["scaler", "4"], ["solve"]]})
     cases.append({"mode": "USER", "scaler": 6, "persistent": 1, "simp": 1, "lp": base, "family": "sys-persist-toggle",
                   "ops": [["solve"], ["persist", "0"], ["chg_rhs", "1", "1:0"], ["solve"], ["persist", "1"], ["solve"]]})
+    # scaler sequences s1 -> off -> s3 on one object: switching the scaler off leaves the old exponents in the LP, and a scaler that decides
+    # not to scale (geometric scalers on an LP whose ratio is small already) must not reuse them; mild: ratio 16, non-trivial exponents
+    mild = {"m": 2, "n": 2, "sense": -1, "obj": ["1:0", "1:0"], "lo": ["0:0", "0:0"], "up": [INF_TOK, "5:3"],
+            "lhs": ["1:4", "1:2"], "rhs": [INF_TOK, INF_TOK], "robj": ["0:0", "0:0"],
+            "A": [(0, 0, "1:2"), (0, 1, "1:4"), (1, 1, "1:6"), (1, 0, "1:4")]}
+    for s1 in (1, 2, 3, 4, 5, 6):
+        for s3 in (1, 2, 3, 4, 5, 6):
+            for k, lp in enumerate((mild, base)):
+                if k == 1 and (s1 + s3) % 3 != 0:
+                    continue
+                cases.append({"mode": "USER", "scaler": s1, "persistent": 1, "simp": (s1 + s3) % 2, "lp": lp, "family": "sys-scaler-seq",
+                              "ops": [["solve"], ["scaler", "0"], ["solve"], ["scaler", str(s3)], ["solve"], ["chg_lo", "0", "1:-3"], ["solve"]]})
     for sc in (1, 2, 3, 4, 5, 6):
         cases.append({"mode": "BARE", "scaler": sc, "persistent": 1, "simp": 0, "family": "sys-bare",
                       "lp": dict(base, lo=[NINF_TOK, "0:0"], lhs=["1:10", NINF_TOK], rhs=[INF_TOK, "1:-2"]),
